@@ -5,12 +5,12 @@
 # 3. stores everything under /verif/seeded/<seed-name>/
 set -u
 S=$1; P=$2; DEST=$3; shift 3
-WT=/tmp/seed-$S; OUT=/tmp/seed-$S-out
+WT=/tmp/${SEEDPFX:-seed-}$S; OUT=/tmp/${SEEDPFX:-seed-}$S-out; N=${SEEDNAME:-$S}
 export GOFLAGS=-mod=mod GOPROXY=off GOWORK=off
-mkdir -p /verif/seeded/$S
-cp $OUT/patch.diff /verif/seeded/$S/patch.diff
-cp -r $OUT/demo /verif/seeded/$S/ 2>/dev/null
-cp $OUT/meta.json /verif/seeded/$S/agent_meta.json 2>/dev/null
+mkdir -p /verif/seeded/$N
+cp $OUT/patch.diff /verif/seeded/$N/patch.diff
+cp -r $OUT/demo /verif/seeded/$N/ 2>/dev/null
+cp $OUT/meta.json /verif/seeded/$N/agent_meta.json 2>/dev/null
 echo "== demo WITH patch (expect FAIL)"
 git -C $WT checkout -q -- . ; git -C $WT apply $OUT/patch.diff || { echo "patch does not apply in worktree"; }
 cp $OUT/demo/*.go $WT/$DEST/
@@ -23,7 +23,7 @@ echo "== apply to /repo and run check"
 if git -C /repo apply --check $OUT/patch.diff; then
   git -C /repo apply $OUT/patch.diff
   (cd /repo && go build ./... 2>&1 | tail -3)
-  (cd /verif && timeout 1500 ./check $P 2>&1 | cut -c1-400 | tee /verif/seeded/$S/check_quick.txt)
+  (cd /verif && timeout 1500 ./check $P 2>&1 | cut -c1-400 | tee /verif/seeded/$N/check_quick.txt)
   git -C /repo checkout -q -- .
 else
   echo "PATCH DOES NOT APPLY TO /repo HEAD"
